@@ -35,6 +35,13 @@ func bindKinds() []bkind {
 		{name: "fs16", t: tp("FixedString", "16"), kind: b.FS16}, {name: "astr", t: te("Array", t0("String")), kind: colgen.Array(b.Str)},
 		{name: "nu8", t: te("Nullable", t0("UInt8")), kind: colgen.Nullable(b.U8)}, {name: "au8", t: te("Array", t0("UInt8")), kind: colgen.Array(b.U8)},
 		{name: "f64", t: t0("Float64"), kind: b.F64}, {name: "u64", t: t0("UInt64"), kind: b.U64},
+		// maps: the key type has parameters of its own, the value types differ only in their base
+		{name: "mLcU64", t: te("Map", te("LowCardinality", t0("String")), t0("UInt64")), kind: colgen.Map(colgen.LowCardinality(b.Str), b.U64)},
+		{name: "mLcI64", t: te("Map", te("LowCardinality", t0("String")), t0("Int64")), kind: colgen.Map(colgen.LowCardinality(b.Str), b.I64)},
+		{name: "mLcF64", t: te("Map", te("LowCardinality", t0("String")), t0("Float64")), kind: colgen.Map(colgen.LowCardinality(b.Str), b.F64)},
+		{name: "mStrU64", t: te("Map", t0("String"), t0("UInt64")), kind: colgen.Map(b.Str, b.U64)},
+		{name: "tU8Str", t: te("Tuple", t0("UInt8"), t0("String")), kind: colgen.Tuple(b.U8, b.Str)},
+		{name: "tU8", t: te("Tuple", t0("UInt8")), kind: colgen.Tuple(b.U8)},
 		// server-side enum: raw Int8 data under an Enum8 type name; the caller's target is the inferable ColEnum
 		{name: "enumA", t: tp("Enum8", "'a' = 1", "'b' = 2"), kind: b.E8, target: enumT, wire: "Enum8('a' = 1, 'b' = 2)"},
 		{name: "enumB", t: tp("Enum8", "'x' = 1", "'y' = 2", "'z' = 3"), kind: b.E8, target: enumT, wire: "Enum8('x' = 1, 'y' = 2, 'z' = 3)"},
